@@ -10,7 +10,7 @@ THEOREMS = ["SCP.C02." + t for t in "parse_eval post_stable line_eval_partial ad
 RULE = ("random stratified expression trees (depth <= 12, literals: integers, fractions, attached signs, k/M/G/T/P/Z/Y suffixes, "
         "detached sign prefixes on literals and parentheses) rendered with random spacing (0-3 blanks per gap), adjacency sums, "
         "the same as right-hand side of an assignment; thorough: additionally ALL trees with <= 4 operators over a 3-literal pool x "
-        "3 spacings; random trees exclude token runs `a / b / c`; a separate stream gives the chains `a / b / c` that are NOT a calendar date (day 29-31 of a shorter month, day 0 or 32+, month 0 or 13+), which the property keeps; oracle = the tree evaluated with IEEE doubles in tree "
+        "3 spacings; random trees exclude token runs `a / b / c`; a stream of sums that cancel to one unit in the last place (a + b - (a+b), big + small - big); a separate stream gives the chains `a / b / c` that are NOT a calendar date (day 29-31 of a shorter month, day 0 or 32+, month 0 or 13+), which the property keeps; oracle = the tree evaluated with IEEE doubles in tree "
         "order (bit-exact) and with exact rationals (tolerance); non-trivial = >= 1 operator; distinct = distinct line texts")
 ASSUMPTIONS = ["string level: for the arithmetic sub-language (digits, separators, blanks, operator characters) `SCP.Lex.lex_render` PROVES that every "
                "spacing of a line lexes to its pieces' tokens under the scanner model `codeLex`, which is compared token for token with the "
@@ -214,6 +214,31 @@ def run(ctx, model_ok):
             text = rng.choice(["x", "total", "my var"]) + rng.choice([" = ", "=", " =", "= "]) + text
             kind = "assign"
         cases.append({"text": text, "f": f, "q": q, "ops": nops(tree), "kind": kind})
+    # sums that cancel to about one unit in the last place of their operands ('0,1 + 0,2 - 0,3', '1P + 0,1 - 1P'): the result
+    # is whatever IEEE arithmetic gives in tree order, never a rounded-off 0
+    from decimal import Decimal
+    for _ in range(ctx.n(200, 5000)):
+        k = rng.random()
+        if k < 0.6:
+            d1, d2 = rng.randint(1, 6), rng.randint(1, 6)
+            a = Decimal(rng.randint(1, 10 ** d1)) / (10 ** d1)
+            b = Decimal(rng.randint(1, 10 ** d2)) / (10 ** d2)
+            sa, sb, sc = format(a, "f"), format(b, "f"), format(a + b, "f")
+            lits = [Lit(sa), Lit(sb), Lit(sc)]
+            tree = ("sub", ("add", ("one", ("one", ("prim", ("lit", lits[0])))), ("one", ("prim", ("lit", lits[1])))), ("one", ("prim", ("lit", lits[2]))))
+        elif k < 0.8:
+            big = rng.choice([("1", "P"), ("1", "T"), ("9007199254740992", None), ("1", "Z"), ("4503599627370496", None)])
+            small = rng.choice(["0.1", "1", "0.5", "2", "0.3"])
+            tree = ("sub", ("add", ("one", ("one", ("prim", ("lit", Lit(*big))))), ("one", ("prim", ("lit", Lit(small))))), ("one", ("prim", ("lit", Lit(*big)))))
+        else:
+            n0 = rng.randint(2 ** 52, 2 ** 53)
+            tree = ("sub", ("one", ("one", ("prim", ("lit", Lit(str(n0 + rng.randint(1, 3))))))), ("one", ("prim", ("lit", Lit(str(n0))))))
+        if rng.random() < 0.3:
+            tree = ("one", ("div", ("one", ("prim", ("lit", Lit("1")))), ("prim", ("paren", tree))))
+        g = rng.choice(["", " ", "  "])
+        text = render(tree, lambda: g)
+        if admissible(text):
+            cases.append({"text": text, "f": evalf(tree), "q": evalq(tree), "ops": nops(tree), "kind": "cancel"})
     # quotient chains 'a / b / c' that are NOT a calendar date (day 29-31 of a short month, day 0 or 32+, month 0 or 13+):
     # the property excludes only the chains that read as a valid day/month/year
     for _ in range(ctx.n(150, 3000)):
